@@ -196,6 +196,10 @@ Proof.
   - intros H; inv H; auto.
   - intros H; inv H; auto.
   - destruct (p_stack ps); intros H; inv H; auto.
+  - unfold set_origin. destruct (nth_error (b_items st) i) as [it|] eqn:En; [|intros H; inv H; auto].
+    intros H Hi.
+    assert (Hsh : item_shape_ok it) by (rewrite <- (nth_error_nth _ _ dummy_item En); apply Hi).
+    destruct r; inv H; try exact Hi. apply inv_shape_set_item; [exact Hi | exact Hsh].
 Qed.
 
 Theorem run_ops_inv_shape : forall ops ps st, Inv_shape st -> Inv_shape (bstate_of (run_ops ps st ops)).
